@@ -29,18 +29,17 @@ NUnk(pr) == 2 * pr.s * NSeg(pr)
 (* ---------------------------- knot times ------------------------------ *)
 \* Knot(t0, T, i) for i in 0..N : start time plus the first i durations
 Knot(t0, T, i) == RAdd(t0, RSum(SubSeq(T, 1, i)))
-Knots(t0, T) == [j \in 1..(Len(T) + 1) |-> Knot(t0, T, j - 1)]
-DursOfPoints(tp) == [i \in 1..(Len(tp) - 1) |-> RSub(tp[i + 1], tp[i])]
-
+Knots(t0, T) == TLCEval([j \in 1..(Len(T) + 1) |-> Knot(t0, T, j - 1)])
+DursOfPoints(tp) == TLCEval([i \in 1..(Len(tp) - 1) |-> RSub(tp[i + 1], tp[i])])
 (* ------------------------ the defining equations ---------------------- *)
 \* unknown c[i][k] (segment i in 1..N, power k in 0..2s-1) has index (i-1)*2s + k + 1
 \* row that evaluates the d-th derivative of segment i at local time tau
 DRow(s, N, i, tau, d) ==
-    [j \in 1..(2 * s * N) |->
+    TLCEval([j \in 1..(2 * s * N) |->
         LET seg == ((j - 1) \div (2 * s)) + 1
             k == (j - 1) - (seg - 1) * 2 * s
         IN IF seg # i \/ k < d THEN Zero
-           ELSE RMul(RInt(FF(k, d)), RPow(tau, k - d))]
+           ELSE RMul(RInt(FF(k, d)), RPow(tau, k - d))])
 
 RowInterpL(s, N, i) == i                          \* i in 1..N : x_i(0)   = P_(i-1)
 RowInterpR(s, N, i) == N + i                      \* i in 1..N : x_i(T_i) = P_i
@@ -65,8 +64,8 @@ SysRow(s, T, r, shift, only) ==
             IN IF shift = 0 THEN VSub(DRow(s, N, i, T[i], d), DRow(s, N, i + 1, Zero, d))
                ELSE IF On(i) THEN DRow(s, N, i, T[i], d + 1) ELSE Z
 
-DefSystem(s, T) == [r \in 1..(2 * s * Len(T)) |-> SysRow(s, T, r, 0, 0)]
-DefSystemDT(s, T, i) == [r \in 1..(2 * s * Len(T)) |-> SysRow(s, T, r, 1, i)]
+DefSystem(s, T) == TLCEval([r \in 1..(2 * s * Len(T)) |-> SysRow(s, T, r, 0, 0)])
+DefSystemDT(s, T, i) == TLCEval([r \in 1..(2 * s * Len(T)) |-> SysRow(s, T, r, 1, i)])
 
 \* right-hand side, one column per coordinate
 DefRhs(pr) ==
@@ -83,10 +82,9 @@ MinCoeffs(pr) == Solve(DefSystem(pr.s, pr.T), DefRhs(pr))
 
 (* --------------------- reading a coefficient matrix ------------------- *)
 \* polynomial (ascending powers of local time) of segment i, coordinate col
-SegPoly(C, s, i, col) == [k \in 1..(2 * s) |-> C[(i - 1) * 2 * s + k][col]]
+SegPoly(C, s, i, col) == TLCEval([k \in 1..(2 * s) |-> C[(i - 1) * 2 * s + k][col]])
 \* value of the d-th derivative of segment i at local time tau, all coordinates
-SegEval(C, s, i, tau, d) == [col \in 1..Len(C[1]) |-> PolyEvalD(SegPoly(C, s, i, col), tau, d)]
-
+SegEval(C, s, i, tau, d) == TLCEval([col \in 1..Len(C[1]) |-> PolyEvalD(SegPoly(C, s, i, col), tau, d)])
 (* -------- scaled residuals of the defining equations (DESIGN s4) ------ *)
 Tiny == RPow("10", -200)
 \* position-scale of coordinate col: what rounding errors of a solve are proportional to
@@ -97,12 +95,15 @@ PScale(pr, col) ==
         bm == RMaxSeq([d \in 1..(pr.s - 1) |->
                  RMul(RMax(RAbs(pr.BS[d][col]), RAbs(pr.BE[d][col])), RPow(Tmax, d))])
     IN RMax(pm, bm)
-\* |sum(terms) - rhs| / max(sum|terms| + |rhs|, floor)
-ScaledRes(terms, rhs, floor) ==
-    RDiv(RAbs(RSub(RSum(terms), rhs)), RMax(RMax(RAdd(RAbsSum(terms), RAbs(rhs)), floor), Tiny))
+\* An equation sum(terms) = rhs is summarised by  num = |sum(terms) - rhs|,  den = sum|terms| + |rhs|  (the magnitudes it
+\* is assembled from) and  nat = the natural scale of that equation (position scale / duration^d).  Its scaled residual
+\* with noise-floor factor phi is  num / max(den, phi * nat):  relative to the equation's own terms, except where these
+\* are themselves below phi times the natural scale - i.e. indistinguishable from rounding noise of the solve.
+ScaledRes(terms, rhs, nat) ==
+    [num |-> RAbs(RSub(RSum(terms), rhs)), den |-> RAdd(RAbsSum(terms), RAbs(rhs)), nat |-> nat]
+ResVal(r, phi) == RDiv(r.num, RMax(RMax(r.den, RMul(phi, r.nat)), Tiny))
 \* monomials of the d-th derivative of polynomial c at tau
-Monos(c, tau, d) == [k \in 1..(Len(c) - d) |-> RMul(RMul(RInt(FF(k - 1 + d, d)), c[k + d]), RPow(tau, k - 1))]
-
+Monos(c, tau, d) == TLCEval([k \in 1..(Len(c) - d) |-> RMul(RMul(RInt(FF(k - 1 + d, d)), c[k + d]), RPow(tau, k - 1))])
 ResInterpL(pr, C, i, col, ps) == ScaledRes(<<C[(i - 1) * 2 * pr.s + 1][col]>>, pr.P[i][col], ps[col])
 ResInterpR(pr, C, i, col, ps) == ScaledRes(Monos(SegPoly(C, pr.s, i, col), pr.T[i], 0), pr.P[i + 1][col], ps[col])
 ResBcS(pr, C, d, col, ps) ==
@@ -183,6 +184,54 @@ Adjoint(pr, C, gC, gT) ==
         bs |-> [d \in 1..(s - 1) |-> lam[RowBcS(s, N, d)]],
         be |-> [d \in 1..(s - 1) |-> lam[RowBcE(s, N, d)]]]
 
+(***************************************************************************)
+(* The same adjoint together with S = sum_j |J_jk| |g_j|, the magnitude    *)
+(* each result is assembled from (DESIGN s4, gradient tolerance).  Uses    *)
+(* the explicit inverse: lambda = A^-T gC, lambdaAbs = |A^-1|^T |gC|.      *)
+(***************************************************************************)
+MAbs(M) == TLCEval([i \in 1..Len(M) |-> [j \in 1..Len(M[i]) |-> RAbs(M[i][j])]])
+Identity(n) == TLCEval([i \in 1..n |-> VUnit(n, i)])
+\* the parts that depend on the problem only (computed once per build, reused by every propagation)
+AdjointPre(pr) ==
+    LET s == pr.s  N == NSeg(pr)  n == 2 * s * N
+        A == TLCEval(DefSystem(s, pr.T))
+        Ainv == TLCEval(Solve(A, Identity(n)))
+        C == TLCEval(MatMul(Ainv, DefRhs(pr)))
+        Cabs == TLCEval(MAbs(C))
+    IN [AinvT |-> TLCEval(Transpose(Ainv)), AinvTa |-> TLCEval(MAbs(Transpose(Ainv))), C |-> C,
+        dAC |-> TLCEval([i \in 1..N |-> MatMul(DefSystemDT(s, pr.T, i), C)]),
+        dACa |-> TLCEval([i \in 1..N |-> MatMul(MAbs(DefSystemDT(s, pr.T, i)), Cabs)])]
+AdjointWith(pr, pre, gC, gT) ==
+    LET s == pr.s  N == NSeg(pr)  D == Dim(pr)
+        lam == TLCEval(MatMul(pre.AinvT, gC))
+        lamA == TLCEval(MatMul(pre.AinvTa, MAbs(gC)))
+        pt(L, j, col) == RAdd(IF j <= N THEN L[RowInterpL(s, N, j)][col] ELSE Zero,
+                              IF j >= 2 THEN L[RowInterpR(s, N, j - 1)][col] ELSE Zero)
+        tm(i) == [val |-> RSub(gT[i], RSum([col \in 1..D |-> RDot(Col(lam, col), Col(pre.dAC[i], col))])),
+                  mag |-> RAdd(RAbs(gT[i]), RSum([col \in 1..D |-> RDot(Col(lamA, col), Col(pre.dACa[i], col))]))]
+        tms == TLCEval([i \in 1..N |-> tm(i)])
+    IN [points |-> [j \in 1..(N + 1) |-> [col \in 1..D |-> pt(lam, j, col)]],
+        pointsS |-> [j \in 1..(N + 1) |-> [col \in 1..D |-> pt(lamA, j, col)]],
+        times |-> [i \in 1..N |-> tms[i].val],
+        timesS |-> [i \in 1..N |-> tms[i].mag],
+        bs |-> [d \in 1..(s - 1) |-> lam[RowBcS(s, N, d)]],
+        bsS |-> [d \in 1..(s - 1) |-> lamA[RowBcS(s, N, d)]],
+        be |-> [d \in 1..(s - 1) |-> lam[RowBcE(s, N, d)]],
+        beS |-> [d \in 1..(s - 1) |-> lamA[RowBcE(s, N, d)]]]
+AdjointS(pr, C, gC, gT) == AdjointWith(pr, AdjointPre(pr), gC, gT)
+
+\* magnitudes the energy partials are assembled from (same formulas on absolute values)
+EnergyPartialCAbs(C, s, T) ==
+    [r \in 1..Len(C) |-> [col \in 1..Len(C[1]) |->
+        LET i == ((r - 1) \div (2 * s)) + 1
+            k == (r - 1) - (i - 1) * 2 * s
+            q == PolyDeriv(SegPoly(C, s, i, col), s)
+            qa == [j \in 1..Len(q) |-> RAbs(q[j])]
+            mono == [j \in 1..(k - s + 1) |-> IF j = k - s + 1 THEN RInt(FF(k, s)) ELSE Zero]
+        IN IF k < s THEN Zero ELSE RMul("2", PolyInt(PolyMul(qa, mono), T[i]))]]
+EnergyPartialTAbs(C, s, T) ==
+    [i \in 1..Len(T) |-> RSum([col \in 1..Len(C[1]) |-> RSq(PolyAbsEval(PolyDeriv(SegPoly(C, s, i, col), s), T[i]))])]
+
 \* total derivative of the energy w.r.t. the inputs
 EnergyGrad(pr, C) == Adjoint(pr, C, EnergyPartialC(C, pr.s, pr.T), EnergyPartialT(C, pr.s, pr.T))
 
@@ -196,7 +245,7 @@ ScaleSpace(pr, a) == [pr EXCEPT !.P = [j \in 1..Len(pr.P) |-> VScale(a, pr.P[j])
 ScaleTime(pr, a) == [pr EXCEPT !.T = VScale(a, pr.T),
                                !.BS = [d \in 1..Len(pr.BS) |-> VScale(RPow(a, -d), pr.BS[d])],
                                !.BE = [d \in 1..Len(pr.BE) |-> VScale(RPow(a, -d), pr.BE[d])]]
-Rev(q) == [i \in 1..Len(q) |-> q[Len(q) + 1 - i]]
+Rev(q) == TLCEval([i \in 1..Len(q) |-> q[Len(q) + 1 - i]])
 Reverse(pr) == [pr EXCEPT !.T = Rev(pr.T), !.P = Rev(pr.P),
                           !.BS = [d \in 1..Len(pr.BE) |-> VScale(RPow("-1", d), pr.BE[d])],
                           !.BE = [d \in 1..Len(pr.BS) |-> VScale(RPow("-1", d), pr.BS[d])]]
